@@ -82,7 +82,8 @@ def execute(case):
         if "x0_R" in case:
             ck.label("guess")
             x0 = T.TT(core.make_cores({"N": N, "R": case["x0_R"], "dt": "f64", "mode": "gauss", "seed": case["seed"] + 7}))
-        kw = dict(eps=eps, preconditioner=case["prec"], max_full=case["max_full"], verbose=False)
+        kw = dict(eps=eps, preconditioner=case["prec"], max_full=case["max_full"], verbose=False,
+                  local_iterations=case.get("gmres", [40, 2])[0], resets=case.get("gmres", [40, 2])[1])
         torch.manual_seed(case["lib_seed"])
         try:
             xp = lib(lambda: T.solvers.amen_solve(A, b, x0=x0, use_cpp=False, local_solver=1, **kw))
